@@ -38,7 +38,7 @@ func parseEnum(pkg *Package, file *File, def *Definition, penum *syntax.Enum) (*
 	// Check zero
 	_, ok := e.ValueNumbers[0]
 	if !ok {
-		return nil, fmt.Errorf("zero enum value required")
+		return nil, fmt.Errorf("%v: zero enum value required", def.Name)
 	}
 	return e, nil
 }
